@@ -66,8 +66,8 @@ var all = map[string]*runner.Spec{
 		TestPkgs: []string{"github.com/google/licenseclassifier/stringclassifier/...", "github.com/google/licenseclassifier/serializer"},
 		Instrument: func(sc *runner.Scratch) error {
 			_, err := sc.Instrument(runner.InstrumentPlan{
-				V1: map[string]instr.Opts{"": full, "stringclassifier": full, "stringclassifier/internal/pq": full, "stringclassifier/internal/sets": full,
-					"stringclassifier/searchset": full, "stringclassifier/searchset/tokenizer": full, "serializer": full},
+				V1: map[string]instr.Opts{"": fullElems, "stringclassifier": fullElems, "stringclassifier/internal/pq": fullElems, "stringclassifier/internal/sets": fullElems,
+					"stringclassifier/searchset": fullElems, "stringclassifier/searchset/tokenizer": fullElems, "serializer": fullElems},
 				GoDiff: &yieldsAndClock,
 			})
 			return err
@@ -81,7 +81,7 @@ var all = map[string]*runner.Spec{
 			"sort.Sort is left real: it is deterministic for a given input order",
 			"the instrumenter's map-range rewrite preserves semantics (guarded by running the repository's own v2 tests against the instrumented copy in the self-test)",
 		},
-		QuickRuns: 1200, ThorRuns: 40000, QuickCap: 420, ThorCap: 2400,
+		QuickRuns: 900, ThorRuns: 40000, QuickCap: 420, ThorCap: 2400,
 		TestPkgs:     []string{"github.com/google/licenseclassifier/v2"},
 		PlainHarness: true,
 		Instrument: func(sc *runner.Scratch) error {
